@@ -126,7 +126,14 @@ fn load_world(repo: &Path, work: &Path) -> World {
         eprintln!("harness error: fixtures ({}) or introspection documents ({}) not found under {}", fixtures.len(), docs.len(), repo.display());
         std::process::exit(2);
     }
-    World { fixtures, docs }
+    let mut json_files = vec![];
+    for rel in ["graphql_client/tests/countries_schema.json", "graphql_client/tests/json_schema/schema_1.json", "graphql_client/tests/json_schema/schema_2.json", "graphql_client/tests/introspection/introspection_response.json", "graphql_client_codegen/src/schema/tests/extend_object_schema.json"] {
+        let p = repo.join(rel);
+        if let Ok(md) = std::fs::metadata(&p) {
+            json_files.push((rel.rsplit('/').next().unwrap_or(rel).to_string(), p.display().to_string(), md.len() > 100_000));
+        }
+    }
+    World { fixtures, docs, json_files }
 }
 
 fn selects(text: &str, field: &str) -> bool {
@@ -145,6 +152,10 @@ struct Served {
 }
 
 fn served_for(plan: &Value, spec: &Value, w: &World) -> Served {
+    if spec["kind"] == "file" {
+        let bytes = w.json_files.iter().find(|(n, _, _)| Some(n.as_str()) == spec["name"].as_str()).and_then(|(_, p, _)| std::fs::read(p).ok()).unwrap_or_else(|| b"null".to_vec());
+        return Served { bytes, arguable: vec!["a JSON file served as is (no SDL to compare with)".into()], has_one_of: false };
+    }
     let fx = w.fixtures.iter().find(|f| Some(f.name.as_str()) == spec["fixture"].as_str()).unwrap_or(&w.fixtures[0]);
     let sdl = std::fs::read_to_string(&fx.sdl_path).unwrap_or_default();
     let doc = expected_doc(w, plan["is_one_of"].as_bool().unwrap_or(false), plan["specify_by_url"].as_bool().unwrap_or(false)).map(|d| d.1.clone()).unwrap_or_default();
